@@ -68,6 +68,7 @@ def S():
               "persistent!", "=", "hash", "meta", "range", "fnil", "inc", "first", "map-entry"):
         d[n] = boot.core(n)
     d["inc0"] = d["fnil"](d["inc"], 0)
+    d["identity"] = boot.core("identity")
     d["KEYS"] = [K("0", 7), K("1", 7), K("2", 8), 0, 1, 33, kw.keyword("a"), "s", None]
     _S.update(d)
     return _S
@@ -334,6 +335,14 @@ def apply_op(vals, op, step):
     elif name == "update" and kind == "map":
         k = key(op[2])
         cur = model.get(k)
+        if op[2] % 3 == 1:
+            # an updater that hands back what it was given: (update m k identity) still associates k, also when k
+            # was absent (then with nil)
+            d = dict(model)
+            d[k] = cur
+            push(s["update"](real, k, s["identity"]), d, None)
+            labels.add("update-identity" + ("-absent" if k not in model else ""))
+            return labels
         if cur is not None and (isinstance(cur, bool) or not isinstance(cur, int)):
             return labels
         d = dict(model)
